@@ -41,6 +41,7 @@ type Churn struct {
 	MidLeavePart   bool // a dealt-in player leaves mid-hand (recorded finding of C01/C02)
 	RandomSeat     bool
 	Batch          bool // batch leaves and UpdateTablePlayers calls
+	TableLevelGuard bool // judge openability by the table's own data only (C08: a seat manager that disagrees is the defect)
 	AddOnBusted    bool // add-ons to busted players between hands (the seat manager learns of them at the next continue)
 	ResumePaused   bool
 	MaxOpsPerPoint int
@@ -514,7 +515,7 @@ func sortedKeys(m map[string]int64) []string {
 func (p *Play) smLive() []string {
 	st := p.SS.S.SM()
 	var ids []string
-	if st == nil {
+	if st == nil || p.Opts.Churn.TableLevelGuard {
 		return inAndChips(p.tableNow())
 	}
 	t := p.tableNow()
